@@ -29,13 +29,15 @@ Judge(e, P) ==
            ELSE Outcome(P[e.g], CallOf(e))
       P2 == IF e.op = "drop" THEN [x \in DOMAIN P \ {e.g} |-> P[x]]
             ELSE IF (e.op = "new" \/ MakesObject(e.op)) /\ Has(o, "ret") THEN Put(P, e.new, o.ret)
+            ELSE IF IsMutator(e.op) THEN Put(P, e.g, Effect(P[e.g], CallOf(e)))
             ELSE P
   IN IF Has(o, "exc") /\ ~Has(e.out, "exc") THEN [v |-> "violation:outcome:" \o e.op \o " should raise " \o o.exc, pool |-> P2]
      ELSE IF Has(o, "exc") /\ e.out.exc # o.exc THEN [v |-> "violation:outcome:" \o e.op \o " raised " \o e.out.exc, pool |-> P2]
      ELSE IF Has(o, "ret") /\ Has(e.out, "exc") THEN [v |-> "violation:outcome:" \o e.op \o " raised " \o e.out.exc, pool |-> P2]
      ELSE IF Has(o, "ret") /\ ~RetMatches(e, o) THEN [v |-> "violation:result:" \o e.op, pool |-> P2]
      ELSE IF ProjPool(e) # P2 THEN [v |-> "violation:state:" \o e.op, pool |-> P2]
-     ELSE IF \E g \in DOMAIN P2 : ~KripkeInvOf(P2[g]) THEN [v |-> "ORACLE:KripkeInv", pool |-> P2]
+     \* every structure that comes out of the constructor / clone / get_substructure satisfies the class invariant (C14)
+     ELSE IF (e.op = "new" \/ MakesObject(e.op)) /\ Has(o, "ret") /\ ~KripkeInvOf(P2[e.new]) THEN [v |-> "ORACLE:KripkeInv", pool |-> P2]
      ELSE IF ~NoSharing(e) THEN [v |-> "violation:sharing:" \o e.op, pool |-> P2]
      ELSE [v |-> "ok", pool |-> P2]
 TInit == l = 1 /\ fails = <<>> /\ sp = <<>> /\ broken = FALSE
